@@ -737,6 +737,27 @@ func (e *Env) evalCall(x *ECall) Val {
 				return Val{T: types.Typ[types.Int], L: []string{c.chanLen(e.stOf(v), v.L[0])}}
 			}
 			c.fail("spec: len of %s", v.T)
+		case "iface":
+			// iface(x): the interface value holding x with its static type
+			v := e.eval(x.Args[0])
+			if v.T == nil || v.Const != nil {
+				c.fail("spec: iface() needs a typed value")
+			}
+			return Val{T: types.NewInterfaceType(nil, nil), L: []string{c.makeIface(v.T, v)}}
+		case "sprintf":
+			// sprintf(format, args...): the same term the executor builds for fmt.Sprintf with these arguments
+			f := e.eval(x.Args[0])
+			ts := []string{f.L[0]}
+			sorts := []string{SStr}
+			for _, a := range x.Args[1:] {
+				v := e.eval(a)
+				if v.Const != nil {
+					v = e.coerceConst(v, nil)
+				}
+				ts = append(ts, c.fmtArg(c.makeIface(v.T, v)))
+				sorts = append(sorts, SStr)
+			}
+			return Val{T: types.Typ[types.String], L: []string{c.sprintfTerm(ts, sorts)}}
 		case "val":
 			v := e.eval(x.Args[0])
 			if len(v.Tup) < 1 {
@@ -875,6 +896,22 @@ func (e *Env) evalCall(x *ECall) Val {
 			return Val{T: rt.Go, ST: rt.S, L: []string{app("uf_"+u.Name, args...)}}
 		}
 	}
+	// deterministic extern function: pkg.Fun(args)
+	if x.Pkg != "" {
+		for _, p := range c.W.pkgsNamed(e.pkg, x.Pkg) {
+			if obj, ok := p.Scope().Lookup(x.Fun).(*types.Func); ok {
+				fn := c.W.prog.FuncValue(obj)
+				if fn != nil && c.W.isDeterministic(fn) {
+					sig := obj.Type().(*types.Signature)
+					var args []Val
+					for i, a := range x.Args {
+						args = append(args, e.evalTyped(a, sig.Params().At(i).Type()))
+					}
+					return packResults(c.detResults(fnKey(fn), sig.Results(), args), sig.Results())
+				}
+			}
+		}
+	}
 	// conversion to a named type: pkg.T(x) or T(x)
 	if len(x.Args) == 1 {
 		if T := c.W.resolveNamedType(e.pkg, x.Pkg, x.Fun); T != nil {
@@ -942,23 +979,43 @@ func (c *Ctx) makeIface(T types.Type, v Val) string {
 	}
 	fn := "mk_" + sanitize(c.typeKey(T))
 	c.declFun(fn, strings.Join(sorts, " "), SIface)
-	var t string
 	if len(ls) == 0 {
-		t = fn
-	} else {
-		if v.P != nil {
-			c.fail("Go-side pointer stored in interface")
+		c.raw("mkax:"+fn, fmt.Sprintf("(assert (= (itag %s) %s))", fn, c.typeID(T)))
+		return fn
+	}
+	if v.P != nil {
+		c.fail("Go-side pointer stored in interface")
+	}
+	// constructor axioms, once per type: tag and payload projections of mk_T(v...)
+	if !c.declared["mkax:"+fn] {
+		var binders, vars, facts []string
+		for i, l := range ls {
+			b := fmt.Sprintf("v%d", i)
+			binders = append(binders, fmt.Sprintf("(%s %s)", b, l.Sort))
+			vars = append(vars, b)
 		}
-		t = app(fn, v.L...)
+		appl := app(fn, vars...)
+		facts = append(facts, tEq(app("itag", appl), c.typeID(T)))
+		for i, l := range ls {
+			pf := fmt.Sprintf("ipay_%s_%d", sanitize(c.typeKey(T)), i)
+			c.declFun(pf, SIface, l.Sort)
+			facts = append(facts, tEq(app(pf, appl), vars[i]))
+		}
+		// an interface value of dynamic type T is mk_T applied to its payload
+		var projs []string
+		for i := range ls {
+			projs = append(projs, app(fmt.Sprintf("ipay_%s_%d", sanitize(c.typeKey(T)), i), "x"))
+		}
+		surj := fmt.Sprintf("(assert (forall ((x Iface)) (! (=> (= (itag x) %s) (= x %s)) :pattern (%s))))", c.typeID(T), app(fn, projs...), projs[0])
+		c.raw("mkax:"+fn, fmt.Sprintf("(assert (forall (%s) (! %s :pattern (%s))))\n%s", strings.Join(binders, " "), tAnd(facts...), appl, surj))
+	}
+	t := app(fn, v.L...)
+	for _, l := range v.L {
+		if strings.Contains(l, "!q") {
+			return t // under a binder: cannot be named at top level
+		}
 	}
 	name := c.define("iface", SIface, t)
-	facts := []string{tEq(app("itag", name), c.typeID(T))}
-	for i, l := range ls {
-		pf := fmt.Sprintf("ipay_%s_%d", sanitize(c.typeKey(T)), i)
-		c.declFun(pf, SIface, l.Sort)
-		facts = append(facts, tEq(app(pf, name), v.L[i]))
-	}
-	c.assume("true", tAnd(facts...))
 	return name
 }
 
